@@ -50,3 +50,54 @@ Proof.
     + destruct H as (t & Ht). inversion Ht; subst. rewrite ceqb_refl. simpl.
       apply IH. now exists t.
 Qed.
+
+(* ---- replace ---- *)
+Lemma skipn_length_le {A} n (l : list A) : length (skipn n l) <= length l.
+Proof. rewrite skipn_length. lia. Qed.
+
+Lemma replace_fuel_irrel old new : old <> [] -> forall f1 f2 s,
+  length s <= f1 -> length s <= f2 -> replace_fuel f1 old new s = replace_fuel f2 old new s.
+Proof.
+  intros Hold. induction f1 as [|f1 IH]; intros f2 s H1 H2.
+  - destruct s; [|simpl in H1; lia]. destruct f2; reflexivity.
+  - destruct f2 as [|f2].
+    + destruct s; [reflexivity|simpl in H2; lia].
+    + simpl. destruct s as [|c s']; [reflexivity|].
+      destruct (startswith old (c :: s')) eqn:E.
+      * f_equal. apply IH.
+        -- destruct old as [|o old']; [congruence|]. simpl. pose proof (skipn_length_le (length old') s'). simpl in H1. lia.
+        -- destruct old as [|o old']; [congruence|]. simpl. pose proof (skipn_length_le (length old') s'). simpl in H2. lia.
+      * f_equal. apply IH; simpl in *; lia.
+Qed.
+
+Lemma replace_nil old new : replace old new [] = [].
+Proof. unfold replace. destruct old; reflexivity. Qed.
+
+Lemma replace_cons old new c s : old <> [] ->
+  replace old new (c :: s) =
+  if startswith old (c :: s) then new ++ replace old new (skipn (length old) (c :: s))
+  else c :: replace old new s.
+Proof.
+  intros Hold. unfold replace. destruct old as [|o old']; [congruence|].
+  cbn [length replace_fuel].
+  destruct (startswith (o :: old') (c :: s)) eqn:E.
+  - f_equal. apply replace_fuel_irrel; [discriminate| |lia].
+    cbn [skipn]. pose proof (skipn_length_le (length old') s). lia.
+  - f_equal.
+Qed.
+
+Lemma replace_skip old new c s : old <> [] -> startswith old (c :: s) = false ->
+  replace old new (c :: s) = c :: replace old new s.
+Proof. intros H E. rewrite replace_cons by exact H. now rewrite E. Qed.
+
+Lemma replace_hit old new s : old <> [] ->
+  replace old new (old ++ s) = new ++ replace old new s.
+Proof.
+  intros H. destruct old as [|o old']; [congruence|].
+  change ((o :: old') ++ s) with (o :: (old' ++ s)).
+  rewrite replace_cons by exact H.
+  change (o :: old' ++ s) with ((o :: old') ++ s).
+  rewrite startswith_app. f_equal. f_equal.
+  change (skipn (length (o :: old')) ((o :: old') ++ s)) with (skipn (length old') (old' ++ s)).
+  rewrite skipn_app, skipn_all, Nat.sub_diag. reflexivity.
+Qed.
